@@ -31,7 +31,7 @@ PASS = ("core::clone::Clone::clone", "alloc::borrow::ToOwned::to_owned", "alloc:
         "core::iter::traits::collect::IntoIterator::into_iter", "core::iter::traits::iterator::Iterator::copied",
         "core::iter::traits::iterator::Iterator::cloned", "core::iter::traits::iterator::Iterator::collect", "core::convert::identity",
         "corgi::array::Array::with_children", "corgi::array::Array::with_backward_op", "corgi::array::Array::tracked",
-        "corgi::array::Array::untracked", "corgi::array::Array::values")
+        "corgi::array::Array::untracked")
 FROM_ARRAY = "<corgi::array::Array as core::convert::From<("
 # shape-changing / reducing array functions of the public API: opaque function symbols for the formula rules R34 / R35
 UNINTERPRETED = ("matmul", "conv", "sum", "sum_all")
@@ -232,6 +232,9 @@ class SymEval:
         if k == "Block":
             if e.get("e") is None:
                 return ("unk", "block without value")
+            for st in e["stmts"]:
+                if st["s"] == "expr" and any(x.get("k") == "Return" for x in walk(st["e"])):
+                    return ("unk", "early return inside a statement")
             return self.ev(e["e"], self.block_env(e, env))
         if k == "If":
             return self.ev_if(e, env)
@@ -250,6 +253,16 @@ class SymEval:
 
     def ev_if(self, e, env):
         cond = strip(e["cond"])
+        if cond.get("k") == "Let" and e.get("else") is not None and self.uninterp:
+            # `if let Some(f) = opt { A } else { B }` is the two-armed match
+            fake = {"k": "Match", "scrutinee": cond["e"], "arms": [
+                {"pat": cond["pat"], "guard": None, "body": e["then"]},
+                {"pat": {"k": "Variant", "adt": OPTION, "variant": "None", "subs": []}, "guard": None, "body": e["else"]}]}
+            p = cond["pat"]
+            while isinstance(p, dict) and p.get("k") in ("Deref", "DerefPattern"):
+                p = p["sub"]
+            if p.get("k") == "Variant" and p.get("adt") == OPTION and p.get("variant") == "Some":
+                return self.ev_match(fake, env)
         if cond.get("k") == "Let" or e.get("else") is None:
             return ("unk", "if-let / if without else")
         t = self.ev(e["then"], env)
@@ -445,6 +458,9 @@ class SymEval:
             if cal.get("resolved_local"):
                 return self.local_call(e, env, [a])
             return self.map1(a, lambda v: -v)
+        if r == "corgi::array::Array::values" and args:
+            a = self.ev(args[0], env)
+            return ("v", a[1]) if a[0] == "arr" else ("unk", "values() of %s" % a[0])
         # ---- value-preserving calls
         if (c in PASS or r in PASS or r == "<%s as core::clone::Clone>::clone" % ARRAY) and args:
             return self.ev(args[0], env)
@@ -508,6 +524,11 @@ class SymEval:
                 a = self.ev(args[0], env)
                 if a[0] == "v":
                     return ("s", self.alg.atom("count[%r]" % a[1]))
+            if c == "core::option::Option::<T>::map" and len(args) == 2:
+                a = self.ev(args[0], env)
+                if a[0] == "opt" and a[1] is not None:
+                    return ("opt", self.apply(self.ev(args[1], env), [self.force(a[1])]))
+                return ("unk", "Option::map on %s" % a[0])
             if c in ("core::option::Option::<T>::unwrap", "core::option::Option::<T>::as_ref", "core::option::Option::<T>::expect") and args:
                 a = self.ev(args[0], env)
                 if a[0] == "opt" and a[1] is not None:
